@@ -64,6 +64,9 @@ type (
 		constants               map[string]any
 		vars                    map[string]any
 		varsMut                 sync.RWMutex
+		// the names the statement gives its CTEs: they are entered into the document next to
+		// its keys but are not part of it
+		ctes sync.Map
 	}
 	Query struct {
 		data                Map
@@ -331,6 +334,9 @@ func BuildCte(query *Query, expr *sqlparser.With) error {
 	query.data = data
 	for _, cte := range expr.CTEs {
 		copy := *cte
+		if query.options != nil {
+			query.options.ctes.Store(copy.ID.String(), struct{}{})
+		}
 		var evaluate CteEvaluation
 		evaluate = func() (any, error) {
 			// while the CTE is being evaluated its name stands for an error: a CTE that refers to
@@ -1294,6 +1300,13 @@ func SelectExpr(query *Query, current Map, expr *sqlparser.SelectExprs, opts ...
 		case *sqlparser.StarExpr:
 			{
 				for key, value := range current {
+					// FROM dual makes the document the row: a CTE of the statement (its pending
+					// evaluation, or its rows once it has been read) is no column of it
+					if query.dual && query.options != nil {
+						if _, ok := query.options.ctes.Load(key); ok {
+							continue
+						}
+					}
 					query.postProcessors = append(query.postProcessors, func() error {
 						delete(data, "<-")
 						return nil
